@@ -179,13 +179,28 @@ def eval_case(case):
     if case["kind"] == "useq":
         # a HISTORY of requests on ONE propagator object: every sub-axis of the list in turn,
         # interleaved with propagate(); each answer must be the exponential on its own axis
-        prop = PopulationPropagator(ta, RateMatrix(data=K.copy()))
+        rmat = RateMatrix(data=K.copy())
+        prop = PopulationPropagator(ta, rmat)
         worst = 0.0
+        corr = case.get("corr") or [-1]
         for idx, (s, m, L) in enumerate(case["subs"]):
             sub = qr.TimeAxis(t0 + s * dt, L, m * dt)
             if not sub.is_subset_of(ta):
                 continue
-            U = prop.get_PropagationMatrix(sub)
+            # the perturbative corrections are an additional output of the request (rarely used
+            # option); asking for them must not change the propagator or the caller's matrix
+            cr = corr[idx % len(corr)]
+            U = prop.get_PropagationMatrix(sub, corrections=cr) if cr >= 0 \
+                else prop.get_PropagationMatrix(sub)
+            if isinstance(U, tuple):
+                U = U[0]
+            if not numpy.array_equal(numpy.asarray(rmat.data), K) or \
+                    not numpy.array_equal(numpy.asarray(prop.KK), K):
+                viol.append(("propagation-matrix/request-changed-the-rate-matrix/corrections=%d"
+                             % cr, "%s: after request #%d (corrections=%d) the rate matrix of "
+                             "the caller / of the propagator differs from the one supplied"
+                             % (case["gen"], idx, cr), None))
+                break
             err = max(float(numpy.max(numpy.abs(U[:, :, i] -
                       scipy.linalg.expm(K * ((s + i * m) * dt))))) for i in range(L))
             worst = max(worst, err)
@@ -202,7 +217,8 @@ def eval_case(case):
                 if abs(pops[-1].sum() - 1.0) > 1e-10:
                     viol.append(("propagate/sum-not-conserved", "after matrix requests", None))
         return {"nontrivial": len(case["subs"]) > 1, "violations": _dedup(viol),
-                "outcome": [case["gen"], "seq", case["order"], Nt, dt, round(worst, 12)]}
+                "outcome": [case["gen"], "seq", case["order"], case.get("corr"), Nt, dt,
+                            round(worst, 12)]}
     # propagation matrix on a sub axis
     prop = PopulationPropagator(ta, RateMatrix(data=K.copy()))
     s, m, L = case["sub"]
@@ -263,8 +279,9 @@ def grid_cases(tier):
                         subs.append([s, m, min(L, 4)])
             for order, lst in (("ascending", subs), ("descending", subs[::-1]),
                                ("interleaved", subs[::2] + subs[1::2])):
-                cs.append({"kind": "useq", "gen": g, "Nt": Nt, "dt": dt, "t0": t0,
-                           "subs": lst, "order": order})
+                for corr in ([-1], [2, -1], [0, 1, -1]):
+                    cs.append({"kind": "useq", "gen": g, "Nt": Nt, "dt": dt, "t0": t0,
+                               "subs": lst, "order": order, "corr": corr})
             if tier == "thorough":
                 import itertools
                 for a, b in itertools.permutations(subs, 2):
